@@ -295,7 +295,12 @@ func (r *layRun) runCase(c layCase) {
 			}
 			r.violateKey(key, "PtrBack", c, fmt.Sprintf("PTR %s is the embedding of %v but mapped to %q", arpaName(wire), c.Ext, target))
 		} else if modelTarget == "" && target != "" {
-			r.res.DriftNote("name with non-zero u/suffix (%v) was translated to %s; the model refuses it", c.Corrupted, target)
+			// reversibility read from the PTR side: an ip6.arpa name is translated to a.b.c.d only if it IS the
+			// RFC 6052 embedding of a.b.c.d (reserved octet and suffix zero) -- otherwise the answer maps an address
+			// to an IPv4 address that does not map back to it
+			r.violateKey(fmt.Sprintf("layout/PtrOnlyEmbeddings/%d", c.Plen), "PtrBack", c,
+				fmt.Sprintf("PTR %s has non-zero reserved/suffix octets at %v, so it is the embedding of no IPv4 address under the /%d prefix, yet it was translated to %q:\n%s",
+					arpaName(wire), c.Corrupted, c.Plen, target, msgText(prep)))
 		}
 		r.res.Count("corrupted_cases", 1)
 	}
